@@ -228,6 +228,7 @@ func (setupEngine) Run(ctx *fw.Ctx, cs any) {
 	_, _, _, files := genSetupVector(rand.New(rand.NewSource(1)), -1)
 	job := &ChainJob{HasV4: !c.V6, HasV6: c.V6, Pre: true, Files: files}
 	var desc []string
+	linkLevel := 0
 	if c.OtherProto {
 		// the plugin is listed in the section of the protocol it has no setup function for: the loader
 		// skips it with a warning; the rest of the chain (here: sleep 0s) must work
@@ -261,6 +262,23 @@ func (setupEngine) Run(ctx *fw.Ctx, cs any) {
 	} else {
 		job.V4 = []PlugConf{{c.Plugin, c.Args}}
 		job.Reqs, desc = battery4(rng, 40)
+		if _, err := net.InterfaceByName("ve0"); err == nil {
+			// inside the private namespace: requests of directly attached clients without an address and
+			// without the broadcast flag - the reply leaves as a hand-built Ethernet frame, a second
+			// serialiser (gopacket) every accepted option set must also survive
+			job.Sniff, job.FrameWaitUs = []string{"ve1"}, 20000
+			for k := 0; k < 6; k++ {
+				mt := byte(1 + 2*(k%2))
+				opts := []pkt.Opt4{pkt.O4(55, [][]byte{{1, 3, 6, 15, 26, 51, 54, 66, 67, 108, 116, 119, 121}, {67}, {1}}[k%3]...)}
+				if mt == 3 {
+					opts = append(opts, pkt.O4(50, 10, 0, 0, byte(k)))
+				}
+				p := pkt.Request4(uint32(0x5800+k), []byte{2, 0, 0, 0x19, 0, byte(k)}, mt, opts...)
+				job.Reqs = append(job.Reqs, ChainReq{Hex: hex.EncodeToString(p.Bytes()), RxIfName: "ve0", Peer: "0.0.0.0", Port: 68})
+				desc = append(desc, fmt.Sprintf("v4 type=%d from a directly attached client (no giaddr, no ciaddr, broadcast flag clear: link-level reply), request list %d", mt, k%3))
+				linkLevel++
+			}
+		}
 	}
 	job.LogLevel = caseLogLevel(c.Seed)
 	out := RunChain(job, ctx.Scratch, 90*time.Second)
@@ -308,7 +326,19 @@ func (setupEngine) Run(ctx *fw.Ctx, cs any) {
 	ctx.Count("setup.accepted."+c.Plugin, 1)
 	ctx.Nontrivial("C19", conf)
 	replies := 0
+	ctx.Count("setup.link_level_requests", int64(linkLevel))
 	for i, r := range out.Res {
+		for _, f := range r.Frames {
+			fb, _ := hex.DecodeString(f.Hex)
+			fr, err := pkt.ParseFrame(fb)
+			if err != nil || !fr.IsIPv4UDP || fr.DstPort != 68 {
+				continue
+			}
+			ctx.Count("setup.link_level_replies_round_tripped", 1)
+			if sig, msg := roundTripOf(false, fr.Payload, r, false); sig != "" {
+				ctx.Viol("C19", sig+":"+c.Plugin, "%s was accepted at start-up; link-level reply to {%s}: %s", conf, desc[i], msg)
+			}
+		}
 		for _, code := range r.OversizeOpts {
 			ctx.Viol("C19", fmt.Sprintf("option-too-long-for-the-wire:%s", c.Plugin), "%s was accepted at start-up; the response to {%s} carries option %d whose value does not fit the 16-bit option length", conf, desc[i], code)
 		}
@@ -384,7 +414,11 @@ func domainCount(v6 bool, b []byte) (int, bool) {
 
 // roundTrip: the bytes the server sent parse back, re-serialise identically and
 // hold the options of the in-memory response.
-func roundTrip(v6 bool, b []byte, r ReqRes) (string, string) {
+func roundTrip(v6 bool, b []byte, r ReqRes) (string, string) { return roundTripOf(v6, b, r, true) }
+
+// roundTripOf: stable=false skips the byte-for-byte comparison (the link-level path has its own serialiser,
+// which does not pad to the BOOTP minimum; what the statement fixes is the options).
+func roundTripOf(v6 bool, b []byte, r ReqRes, stable bool) (string, string) {
 	if v6 {
 		d, err := dhcpv6.FromBytes(b)
 		if err != nil {
@@ -423,7 +457,7 @@ func roundTrip(v6 bool, b []byte, r ReqRes) (string, string) {
 			return "option-undecodable", fmt.Sprintf("option 119 (%d bytes) is not a well-formed domain search list (decoded so far: %v)", len(v), names)
 		}
 	}
-	if re := d.ToBytes(); !bytes.Equal(re, b) {
+	if re := d.ToBytes(); stable && !bytes.Equal(re, b) {
 		return "reply-not-stable", fmt.Sprintf("parse+serialise changes the datagram: sent %d bytes, re-serialised %d bytes", len(b), len(re))
 	}
 	if r.Pre4 != nil {
